@@ -335,6 +335,46 @@ def holdsBuild (c : IPText) (host : Text) (port : Nat) (payload : Bytes) (o : BO
     | .ok d => sameDest c host d.host && d.port == port && d.payload == payload
     | .fail _ => false))
 
+/-! ### What the listener does with the parsed request -/
+
+/-- Policy of the listener, not of the RFC: DNS-over-TLS to the virtual DNS address is refused so
+that the system falls back to UDP DNS. -/
+def dotIntercept (host : Text) (port : Nat) : Bool :=
+  host == [49, 48, 46, 48, 46, 48, 46, 49] && port == 853      -- "10.0.0.1"
+
+/-- Success reply to UDP ASSOCIATE: `REP = 0`, BND.PORT the relay's port, BND.ADDR the relay's
+address when it is IPv4 (for an IPv6-only relay address the code answers `0.0.0.0`; tolerated). -/
+def bindReply (ip : Bytes) (port : Nat) (r : Bytes) : Bool :=
+  isReply 0 r && r.drop (r.length - 2) == encPort port &&
+  (match to4 ip with
+   | some b => r == [5, 0, 0, 1] ++ b ++ encPort port
+   | none => true)
+
+/-- **The connection property on one observation**: a rejected negotiation creates nothing and is
+closed after the prescribed reply; an accepted CONNECT hands the tunnel creator exactly the RFC's
+host text and port, this listener's mapping identity, and every byte that followed the request,
+then reports success (`REP = 0`) or failure as the creator did; an accepted UDP ASSOCIATE creates
+the relay and announces its address. -/
+def holdsConn (c : IPText) (cfg : ConnCfg) (input : Bytes) (o : ConnObs) : Bool :=
+  match decodeNeg listenerProfile input with
+  | .reject why _ pre =>
+    o.events.isEmpty && o.closed && pre.isPrefixOf o.written && replyFor why (o.written.drop pre.length)
+  | .accept cmd a port used pre =>
+    pre.isPrefixOf o.written &&
+    (if cmd = 1 then
+      if dotIntercept (hostText c a) port || !cfg.hasTunnel then
+        o.events.isEmpty && o.closed && isFailureReply (o.written.drop pre.length)
+      else
+        o.events == [.tunnel cfg.mapping cfg.target (hostText c a) port cfg.secret (input.drop used)] &&
+        (if cfg.tunnelOk then !o.closed && isReply 0 (o.written.drop pre.length)
+         else o.closed && isFailureReply (o.written.drop pre.length))
+    else
+      if !cfg.hasRelay then o.events.isEmpty && o.closed && isReply 7 (o.written.drop pre.length)
+      else
+        o.events == [.relay cfg.mapping cfg.target cfg.secret] &&
+        (if cfg.relayOk then !o.closed && bindReply cfg.bindIP cfg.bindPort (o.written.drop pre.length)
+         else o.closed && isFailureReply (o.written.drop pre.length)))
+
 /-! ### Datagrams relayed to the tunnels -/
 
 /-- What the tunnels must receive for the datagrams `ds`: one `SendPacket` per datagram the RFC gives
@@ -345,5 +385,48 @@ def relayExpect (c : IPText) (ds : List Bytes) : List UDest := ds.filterMap (udp
 (goroutines finish in any order), exactly the expected ones — none corrupted, lost or duplicated. -/
 def holdsRelay (c : IPText) (ds : List Bytes) (sent : List UDest) : Bool :=
   sent.isPerm (relayExpect c ds)
+
+/-- The host text `parseUDPHeader` reports for a header built from `host`: the canonical text of the
+address when `host` is an IP literal, `host` itself otherwise. -/
+def rebuiltHost (c : IPText) (host : Text) : Text :=
+  match c.parse host with
+  | some ip => ipString c ip
+  | none => host
+
+/-- Everything the relay exchanged with its surroundings for one batch of datagrams: packets given to
+tunnels, DNS queries given to the control channel (server, query), datagrams sent back to the
+application. `answer` is how the doubles answer a payload (tunnel / DNS). -/
+structure RelayIO where
+  fw : List UDest
+  dq : List (Text × Bytes)
+  rx : List Bytes
+deriving DecidableEq, Repr
+
+/-- What the model relay exchanges, given what it handed on (`sent`). -/
+def relayIO (c : IPText) (dns : Bool) (answer : Bool → Bytes → Bytes) (sent : List UDest) : RelayIO :=
+  ⟨sent.filter (fun d => !isDnsRoute dns d),
+   (sent.filter (isDnsRoute dns)).map (fun d => (dnsServer d.host, d.payload)),
+   sent.map (fun d => replyDatagram c d (answer (isDnsRoute dns d) d.payload))⟩
+
+/-- **The relay property, both directions, on one observation**: tunnels and DNS handler received,
+up to order, exactly the expected payloads for the expected destinations; and what came back to the
+application is, up to order, one RFC datagram per answer, naming the destination the answer belongs
+to (same text, or the canonical text of the same IP literal), the same port, the answer intact. -/
+def holdsRelayIO (c : IPText) (dns : Bool) (answer : Bool → Bytes → Bytes) (ds : List Bytes) (o : RelayIO) : Bool :=
+  o.fw.isPerm ((relayExpect c ds).filter (fun d => !isDnsRoute dns d)) &&
+  o.dq.isPerm (((relayExpect c ds).filter (isDnsRoute dns)).map (fun d => (dnsServer d.host, d.payload))) &&
+  (o.rx.map (udpExpect c)).isPerm ((relayExpect c ds).map
+    (fun d => some ⟨rebuiltHost c d.host, d.port, answer (isDnsRoute dns d) d.payload⟩))
+
+/-- **The adapter's whole connection handler, no session attached**: the connection is always
+closed; an accepted negotiation is consumed exactly and answered, after the replies owed, with a
+failure reply (there is nothing to connect through); a rejected one as in `holdsAd`. -/
+def holdsAdConn (cfg : AdCfg) (input written : Bytes) (consumed : Nat) (closed : Bool) : Bool :=
+  closed &&
+  (match decodeNeg (adapterProfile cfg) input with
+   | .accept _ _ _ used pre =>
+     pre.isPrefixOf written && isFailureReply (written.drop pre.length) && consumed == used
+   | .reject why used pre =>
+     decide (consumed ≤ used) && pre.isPrefixOf written && replyFor why (written.drop pre.length))
 
 end Tunnox.C20
